@@ -201,6 +201,20 @@ Definition spec_top (d : doc) : list (list (list str)) :=
 Definition spec_preorder (d : doc) : list (list (list str)) :=
   flat_map (fun g => map (map cell_text_all) g :: map fgrid_text (nested_of_grid g)) (top_tables d).
 
+(* the `leaf` elements of x in document order, looking through (possibly nested) wrapper elements
+   but not into anything else:
+     ods _iter_sheet_rows / odp _iter_table_rows  (leaf table:table-row; wrappers header-rows, table-rows, row-group)
+     odp _iter_slide_frames                       (leaf draw:frame; wrapper draw:g) *)
+Fixpoint collect_through (leaf : str) (wr : list str) (x : xml) : list xml :=
+  match x with
+  | Elem _ _ _ cs _ =>
+      (fix go (l : list xml) : list xml :=
+         match l with
+         | [] => []
+         | c :: r => (if tag_is leaf c then [c] else if mem_str (xtag c) wr then collect_through leaf wr c else []) ++ go r
+         end) cs
+  end.
+
 (* ------------------------------------------------------------------ DOCX *)
 Definition W_BODY := s "w:body".
 Definition W_P := s "w:p".
@@ -213,11 +227,24 @@ Definition W_TC := s "w:tc".
 (* "".join(t.text for t in element.iter(W_T) if t.text) *)
 Definition docx_collect_text (e : xml) : str := concat (map xtext (iter_tag W_T e)).
 Definition docx_cell (tc : xml) : str := join NL (map docx_collect_text (iter_tag W_P tc)).
+(* wrappers _iter_block_elements looks through: content controls and custom XML *)
+Definition DOCX_WRAPPERS : list str := [s "w:sdt"; s "w:sdtContent"; s "w:customXml"].
+(* through(parent, tag) = [e for e in _iter_block_elements(parent) if e.tag == tag]  (tag is not a wrapper) *)
+Definition docx_through (tag : str) (parent : xml) : list xml := collect_through tag DOCX_WRAPPERS parent.
 Definition docx_table (tbl : xml) : list (list str) :=
-  map (fun tr => map docx_cell (findall W_TC tr)) (findall W_TR tbl).
-(* for child in body: if child.tag == W_TBL: for tbl in child.iter(W_TBL): ... *)
+  map (fun tr => map docx_cell (docx_through W_TC tr)) (docx_through W_TR tbl).
+(* for child in body: a w:tbl, or the w:tbl elements found through a wrapper child; each with its nested tables *)
 Definition docx_tables (body : xml) : list (list (list str)) :=
-  flat_map (fun ch => if tag_is W_TBL ch then map docx_table (iter_tag W_TBL ch) else []) (xchildren body).
+  flat_map (fun ch => if tag_is W_TBL ch then map docx_table (iter_tag W_TBL ch)
+                      else if mem_str (xtag ch) DOCX_WRAPPERS
+                      then flat_map (fun top => map docx_table (iter_tag W_TBL top)) (docx_through W_TBL ch)
+                      else []) (xchildren body).
+
+(* the walker before fix a634949: direct children only (tables / rows / cells inside wrappers were lost) *)
+Definition docx_table_direct (tbl : xml) : list (list str) :=
+  map (fun tr => map docx_cell (findall W_TC tr)) (findall W_TR tbl).
+Definition docx_tables_direct (body : xml) : list (list (list str)) :=
+  flat_map (fun ch => if tag_is W_TBL ch then map docx_table_direct (iter_tag W_TBL ch) else []) (xchildren body).
 
 Definition docx_r_run (t : str) : xml := E W_R [ET W_T t].
 Definition docx_r_para (p : para) : xml := E W_P (map docx_r_run p).
@@ -315,19 +342,6 @@ Fixpoint odf_text (pint : int_oracle) (skip : list str) (x : xml) : str :=
                end) cs
   end.
 
-(* the `leaf` elements of x in document order, looking through (possibly nested) wrapper elements
-   but not into anything else:
-     ods _iter_sheet_rows / odp _iter_table_rows  (leaf table:table-row; wrappers header-rows, table-rows, row-group)
-     odp _iter_slide_frames                       (leaf draw:frame; wrapper draw:g) *)
-Fixpoint collect_through (leaf : str) (wr : list str) (x : xml) : list xml :=
-  match x with
-  | Elem _ _ _ cs _ =>
-      (fix go (l : list xml) : list xml :=
-         match l with
-         | [] => []
-         | c :: r => (if tag_is leaf c then [c] else if mem_str (xtag c) wr then collect_through leaf wr c else []) ++ go r
-         end) cs
-  end.
 Definition ROW_WRAPPERS : list str := [s "table:table-header-rows"; s "table:table-rows"; s "table:table-row-group"].
 Definition table_rows (t : xml) : list xml := collect_through TABLE_ROW ROW_WRAPPERS t.
 Definition DRAW_FRAME := s "draw:frame".
@@ -1316,3 +1330,6 @@ Definition pptx_r_frame_at (xs ys : str) (g : fgrid) : xml :=
   | Elem t a x cs l => Elem t a x (E P_XFRM [Elem A_OFF [(s "x", xs); (s "y", ys)] [] [] []] :: cs) l
   end.
 Definition P_SPTREE := s "p:spTree".
+
+(* XLS workbook: _read_content handles the sheets one after the other with no state carried over *)
+Definition xls_workbook_tables (sheets : list (list (list lcell))) : list (list (list val)) := map xls_sheet_table sheets.
